@@ -15,7 +15,7 @@ type c13 struct{ base }
 
 func init() {
 	runner.Register(&c13{base{id: "C13", level: "exploration",
-		rule: "R1 injectivity, exhaustive over a hostile pool: ALL ordered pairs of distinct (hash, range) tuples built from 17 near-colliding strings (a, a.b, b.c, a., ., a.b.c, a..b, \\, a\\.b …) for S/S, plus hash-only S, N/S, S/N and B/S schemas: Put(k1,v1); Put(k2,v2); Get(k1)=v1; Get(k2)=v2; Scan has 2 items; Delete(k1) leaves k2. Thorough adds seeded random byte-string keys (any bytes incl. '.', NUL, backslash, UTF-8). R2 malformed keys, exhaustive: {missing hash, missing range, wrong type x the 9 other types} x {Put, Get, Update, Delete, BatchWrite, BatchGet} x both adapters must be rejected with a validation error. R3 every update action kind naming the hash or range attribute (bare and through #alias) on present and absent items: admissible = rejected or ignored, never an item whose key attributes differ from the key it is stored under. non-trivial = the two keys share a character with the internal separator or are prefix-related (R1), the request is malformed (R2), the update names a key attribute (R3); distinct by (schema, key pair) / (op, defect) / (action, attr).",
+		rule: "R1 injectivity, exhaustive over a hostile pool: ALL ordered pairs of distinct (hash, range) tuples built from 17 near-colliding strings (a, a.b, b.c, a., ., a.b.c, a..b, \\, a\\.b …) for S/S, plus hash-only S, N/S, S/N, N/N, B/B and B/S schemas and three schemas over numeral-looking strings (1, 1.0, 1.00, 01, 1e0, 007 …) next to number parts with the same text: Put(k1,v1); Put(k2,v2); Get(k1)=v1; Get(k2)=v2; Scan has 2 items; Delete(k1) leaves k2. Thorough adds seeded random byte-string keys (any bytes incl. '.', NUL, backslash, UTF-8). R1b equal keys: a number key part written in two notations of one value (12 notation pairs, the other key part equal to either text) addresses one item (Get, overwrite, Scan count, Delete). R2 malformed keys, exhaustive: {missing hash, missing range, wrong type x the 9 other types} x {Put, Get, Update, Delete, BatchWrite, BatchGet} x both adapters must be rejected with a validation error. R3 every update action kind naming the hash or range attribute (bare and through #alias) on present and absent items: admissible = rejected or ignored, never an item whose key attributes differ from the key it is stored under. non-trivial = the two keys share a character with the internal separator or are prefix-related (R1), the request is malformed (R2), the update names a key attribute (R3); distinct by (schema, key pair) / (op, defect) / (action, attr).",
 		assumptions: commonAssumptions}})
 }
 
@@ -47,8 +47,18 @@ var c13Schemas = []c13Schema{
 	{name: "S/N", hashT: "S", rngT: "N", hashes: c13Pool[:6], rngs: []string{"1", "10", "2", "-1", "0.5", "100", "0", "-10", "1.5", "15", "-1.5", "0.05", "5", "1E3", "-0.5"}},
 	{name: "N/N", hashT: "N", rngT: "N", hashes: []string{"1", "10", "2", "-1", "0.5", "100", "0", "-10", "1.5", "15", "-1.5", "0.05", "5", "1E3", "-0.5"}[:8], rngs: []string{"1", "10", "2", "-1", "0.5", "100", "0", "-10", "1.5", "15", "-1.5", "0.05", "5", "1E3", "-0.5"}[:8]},
 	{name: "B/B", hashT: "B", rngT: "B", hashes: []string{"a", "a.", "\x00", "\x00\x01", ".", "\xff"}, rngs: []string{"a", ".a", "\x01", "\x00", ".", "\xff\x00"}},
+	// numeral-looking STRINGS next to numbers whose text equals one of those strings: a string key part is
+	// identified by its characters ("1.0" and "1.00" are different keys), a number key part by its value
+	{name: "N/S-numerals", hashT: "N", rngT: "S", hashes: []string{"1.0", "2.00"}, rngs: c13NumeralStrings},
+	{name: "S/N-numerals", hashT: "S", rngT: "N", hashes: c13NumeralStrings, rngs: []string{"1.0", "2.00"}},
+	{name: "S-numerals", hashT: "S", hashes: c13NumeralStrings, hashOnly: true},
 	{name: "B/S", hashT: "B", rngT: "S", hashes: []string{"a", "a.b", "\x00", "\x00\x01", ".", "[1 2]", "1 2", "\x01\x02"}, rngs: c13Pool[:6]},
 }
+
+var c13NumeralStrings = []string{"1", "1.0", "1.00", "01", "1e0", "2.00", "2", "007", "7", "-0", "0"}
+
+// notations of equal value: a number key part written either way addresses the same item
+var c13EqualNumerals = [][2]string{{"1", "1.0"}, {"1.0", "1.00"}, {"10", "1e1"}, {"100", "1E2"}, {"0.5", "0.50"}, {"-1", "-1.0"}, {"0", "-0"}, {"0", "0.0"}, {"7", "007"}, {"72.5", "72.50"}, {"1000", "1E+3"}, {"0.001", "1e-3"}}
 
 type c13Pair struct {
 	schema int
@@ -103,7 +113,7 @@ func init() {
 }
 
 func (p *c13) NumCases(tier string) int {
-	n := (len(c13Pairs)+c13Block-1)/c13Block + 2 + 2
+	n := (len(c13Pairs)+c13Block-1)/c13Block + 2 + 2 + 2
 	if tier == "thorough" {
 		n += 2000
 	}
@@ -189,8 +199,10 @@ func (p *c13) RunCase(ctx *runner.Ctx) runner.CaseResult {
 		p.malformed(x, adapt.Adapters[ctx.Case-blocks], ctx)
 	case ctx.Case < blocks+4:
 		p.keyUpdates(x, adapt.Adapters[ctx.Case-blocks-2], ctx)
+	case ctx.Case < blocks+6:
+		p.equalKeys(x, adapt.Adapters[ctx.Case-blocks-4], ctx)
 	default:
-		idx := ctx.Case - blocks - 4
+		idx := ctx.Case - blocks - 6
 		r := mon.Rng(ctx.Seed, "C13", idx)
 		rb := func() string {
 			n := 1 + r.Intn(6)
@@ -218,6 +230,81 @@ func (p *c13) RunCase(ctx *runner.Ctx) runner.CaseResult {
 		}
 	}
 	return x.r
+}
+
+// equalKeys: the "if" direction of key identity. A number-typed key part written in two notations of the
+// same value addresses ONE item, whatever the other key part is - in particular when the other (string)
+// part has the very same text as one of the notations.
+func (p *c13) equalKeys(x *res, adapter string, ctx *runner.Ctx) {
+	type sch struct {
+		name         string
+		hashT, rngT  string
+		numHash, two bool
+	}
+	for _, sc := range []sch{{"N", "N", "", true, false}, {"N/S", "N", "S", true, false}, {"S/N", "S", "N", false, false}, {"N/N", "N", "N", true, true}, {"B/N", "B", "N", false, false}} {
+		spec := adapt.TableSpec{Name: "tbl13", Hash: "h", HashT: sc.hashT, Billing: "PAY_PER_REQUEST"}
+		if sc.rngT != "" {
+			spec.Range, spec.RangeT = "r", sc.rngT
+		}
+		for _, pr := range c13EqualNumerals {
+			for _, other := range []string{pr[0], pr[1], "x", "3"} {
+				if other == "x" && (sc.two || sc.rngT == "") {
+					continue
+				}
+				for dir := 0; dir < 2; dir++ {
+					a, b := pr[dir], pr[1-dir]
+					var k1, k2 val.Item
+					switch {
+					case sc.rngT == "":
+						k1, k2 = mon.KeyFor(spec, a, ""), mon.KeyFor(spec, b, "")
+					case sc.two:
+						if other == "x" {
+							continue
+						}
+						k1, k2 = mon.KeyFor(spec, a, other), mon.KeyFor(spec, b, other)
+					case sc.numHash:
+						k1, k2 = mon.KeyFor(spec, a, other), mon.KeyFor(spec, b, other)
+					default:
+						k1, k2 = mon.KeyFor(spec, other, a), mon.KeyFor(spec, other, b)
+					}
+					cl, _, ds := freshClient(adapter, spec)
+					if ds != nil {
+						x.viol("setup", "create", ds[0].Detail, spec)
+						return
+					}
+					i1, i2 := k1.Clone(), k2.Clone()
+					i1["v"], i2["v"] = val.Str("first"), val.Str("second")
+					ctx.Trace("%s equal keys %s %s", adapter, k1.Canon(), k2.Canon())
+					p1 := cl.Do(adapt.Op{Kind: adapt.OpPut, Table: spec.Name, Item: i1})
+					g := cl.Do(adapt.Op{Kind: adapt.OpGet, Table: spec.Name, Key: k2})
+					p2 := cl.Do(adapt.Op{Kind: adapt.OpPut, Table: spec.Name, Item: i2})
+					scn := cl.Do(adapt.Op{Kind: adapt.OpScan, Table: spec.Name})
+					g1 := cl.Do(adapt.Op{Kind: adapt.OpGet, Table: spec.Name, Key: k1})
+					d := cl.Do(adapt.Op{Kind: adapt.OpDelete, Table: spec.Name, Key: k1})
+					scn2 := cl.Do(adapt.Op{Kind: adapt.OpScan, Table: spec.Name})
+					x.r.Evals += 7
+					x.fp(true, "equal|%s|%s|%s|%s|%s", adapter, sc.name, a, b, other)
+					bad := ""
+					switch {
+					case p1.Class != adapt.ClsOK || p2.Class != adapt.ClsOK || d.Class != adapt.ClsOK:
+						bad = fmt.Sprintf("classes put %s put %s delete %s", p1.Class, p2.Class, d.Class)
+					case !val.ItemsEqual(g.Item, i1):
+						bad = fmt.Sprintf("Get with the other notation returned %s, want %s", g.Item.Canon(), i1.Canon())
+					case len(scn.Items) != 1:
+						bad = fmt.Sprintf("after a Put under each notation the table has %d items, want 1", len(scn.Items))
+					case !val.ItemsEqual(g1.Item, i2):
+						bad = fmt.Sprintf("Get(first notation) after the second Put = %s, want %s", g1.Item.Canon(), i2.Canon())
+					case len(scn2.Items) != 0:
+						bad = fmt.Sprintf("after Delete the table still has %d items", len(scn2.Items))
+					}
+					if bad != "" {
+						x.viol("equal-keys-distinct-items", sc.name, fmt.Sprintf("[%s] schema %s keys %s and %s are the same key: %s", adapter, sc.name, k1.Canon(), k2.Canon(), bad),
+							map[string]interface{}{"adapter": adapter, "spec": spec, "k1": k1, "k2": k2})
+					}
+				}
+			}
+		}
+	}
 }
 
 func (p *c13) malformed(x *res, adapter string, ctx *runner.Ctx) {
